@@ -324,6 +324,11 @@ var (
 func FreePort() string {
 	portMu.Lock()
 	defer portMu.Unlock()
+	if len(portUsed) > 4000 {
+		// a long run restarts thousands of daemons: ports handed out long ago are free again (never let the set of
+		// remembered ports cover the whole ephemeral range)
+		portUsed = map[string]bool{}
+	}
 	for {
 		l, err := net.Listen("tcp", "127.0.0.1:0")
 		if err != nil {
